@@ -48,7 +48,8 @@ Proof.
   - apply IH. destruct s. cbn in *. lia.
   - destruct (beqb c x0a).
     + apply IH. destruct s. cbn in *. lia.
-    + apply IH. destruct s. cbn in *. destruct (N.ltb 1 need_cr); cbn; lia.
+    + apply IH. destruct s as [cu v vl rp pl co ncr lb bl bc nl it ce fi ol]. cbn in *.
+      destruct v as [|l v']; [|destruct (beqb l x0a)]; cbn; lia.
 Qed.
 
 Lemma output_lit_need_cr width buf s : need_cr (output_lit width buf false s) = 0%N.
